@@ -304,8 +304,9 @@ class Dimension:
 
         self = super().__new__(cls)
         self._initialized = False
-        cls._known[key] = self
-        return self
+        # a single atomic dict operation: when several threads construct the same new
+        # value at once, all of them get the instance that was registered first
+        return cls._known.setdefault(key, self)
 
     def __init__(
         self,
@@ -645,8 +646,9 @@ class Prefix:
 
         self = super().__new__(cls)
         self._initialized = False
-        cls._known[key] = self
-        return self
+        # a single atomic dict operation: when several threads construct the same new
+        # value at once, all of them get the instance that was registered first
+        return cls._known.setdefault(key, self)
 
     def __init__(
         self,
@@ -908,8 +910,9 @@ class Unit:
         self._initialized = False
         if not factors:
             key = cls._build_key(prefix, {self: 1})
-        cls._known[key] = self
-        return self
+        # a single atomic dict operation: when several threads construct the same new
+        # value at once, all of them get the instance that was registered first
+        return cls._known.setdefault(key, self)
 
     def __init__(
         self,
